@@ -41,6 +41,18 @@ def lean_int(k):
     return str(k) if k >= 0 else "(%d)" % k
 
 
+def builtin_funs():
+    """Python builtins that may be the value of a closure variable that is CALLED: object -> (Lean term, argument sorts, result sort)"""
+    import operator
+    t = {}
+    for nm, f in [("<", operator.lt), ("<=", operator.le), ("==", operator.eq), ("!=", operator.ne), (">", operator.gt), (">=", operator.ge)]:
+        t[f] = ("(pyOperatorCmp %s)" % lstr(nm), ("V", "V"), "B")
+    for nm, f in [("abs", abs), ("round", round), ("toInt", int), ("toFloat", float), ("floor", math.floor), ("ceil", math.ceil),
+                  ("sin", math.sin), ("cos", math.cos), ("tan", math.tan), ("pos", operator.pos), ("neg", operator.neg)]:
+        t[f] = ("(pyBuiltin1 .%s)" % nm, ("V",), "V")
+    return t
+
+
 class Block:
     """lines of a `do` block and its final term.
     line kinds: ("bind", name, text) | ("let", name, text) | ("bindif", name, cond, Block, Block)
@@ -213,7 +225,17 @@ class Translator:
                     raise Refuse("closure variable %s is not a bool" % py)
                 args.append("true" if v else "false")
             elif kind == "F":
-                args.append(self.inst(v, argsorts, None, rsort)[0])
+                B = builtin_funs()
+                try:
+                    is_b = v in B
+                except TypeError:
+                    is_b = False
+                if is_b:
+                    if tuple(B[v][1]) != tuple(argsorts) or B[v][2] != rsort:
+                        raise Refuse("closure variable %s = builtin %s does not fit the sorts of the first instance" % (py, getattr(v, "__name__", "?")))
+                    args.append(B[v][0])
+                else:
+                    args.append(self.inst(v, argsorts, None, rsort)[0])
             elif kind == "OF":
                 if v is None:
                     args.append("Option.none")
@@ -362,7 +384,7 @@ class FnTr:
                 if f is None:
                     self.refuse(n, "operator %s on quantity vectors" % op)
                 return ("Q", f % (l[1], r[1]))
-            f = {"Add": "pyAdd", "Sub": "pySub", "Mult": "pyMul"}.get(op)
+            f = {"Add": "pyAdd", "Sub": "pySub", "Mult": "pyMul", "Pow": "pyPowOp"}.get(op)
             if f is None:
                 self.refuse(n, "operator %s" % op)
             x = self.fresh()
@@ -512,7 +534,25 @@ class FnTr:
             if any(s not in "VQ" for s in sorts):
                 args = [("V", self.toV(a)) if a[0] == "N" else a for a in args]
                 sorts = tuple(a[0] for a in args)
-            rs = "Q" if sorts and all(s == "Q" for s in sorts) else "V"
+            v = self.freevals[py]
+            B = builtin_funs()
+            try:
+                is_b = v in B
+            except TypeError:
+                is_b = False
+            if is_b:
+                if tuple(B[v][1]) != tuple(sorts):
+                    self.refuse(n, "builtin %s called on sorts %s" % (getattr(v, "__name__", "?"), ",".join(sorts)))
+                rs = B[v][2]
+            elif isinstance(v, types.FunctionType):
+                try:
+                    rs = self.T.function(v, sorts).ret
+                except Refuse as e:
+                    raise Refuse("calls the closure variable %s = %s, which is not translated: %s" % (py, getattr(v, "__name__", "?"), e))
+            elif v is None:
+                rs = "Q" if sorts and all(s == "Q" for s in sorts) else "V"
+            else:
+                self.refuse(n, "call of closure variable %s (%s %s)" % (py, type(v).__name__, getattr(v, "__name__", "")))
             typ = "Disp → " + " → ".join(SORT_LEAN[s] for s in sorts) + " → R (%s)" % SORT_LEAN[rs]
             c = self.cell(py, "F", typ, sorts, n)
             self.cells[py][2] = typ
@@ -565,6 +605,11 @@ class FnTr:
                 self.refuse(n, "max()/min() of sort %s" % a[0])
             x = self.fresh()
             out.append(("bind", x, "%s %s" % ("pyMaxOf" if obj is builtins.max else "pyMinOf", a[1])))
+            return ("V", x)
+        if obj is math.sqrt and len(n.args) == 1:
+            a = self.toV(self.expr(n.args[0], env, out), n)
+            x = self.fresh()
+            out.append(("bind", x, "mathSqrt %s" % a))
             return ("V", x)
         if obj is Ty.Interval and len(n.args) == 2:
             a = [self.toV(self.expr(x, env, out), x) for x in n.args]
